@@ -10,7 +10,7 @@ cd "$WT" || exit 9
 RES=ok
 go build -o "$WT/xgo.orig" ./cmd/xgo || RES="orig-build-fails"
 git apply "$OUT/patch.diff" || RES="patch-does-not-apply"
-if [ "$RES" = ok ]; then go build ./... >/dev/null 2>&1 && go build -o "$WT/xgo.mut" ./cmd/xgo || RES="build-fails"; fi
+if [ "$RES" = ok ]; then go build ./cl/... ./parser/... ./tpl/... ./x/... ./scanner/... ./printer/... ./format/... ./ast/... ./tool/... ./cmd/... >/dev/null 2>&1 && go build -o "$WT/xgo.mut" ./cmd/xgo || RES="build-fails"; fi
 if [ "$RES" = ok ] && [ -n "$TESTS" ]; then
   env -u GOFLAGS go test -mod=mod -vet=off -count=1 $TESTS > test.log 2>&1 || RES="existing-tests-fail"
   grep -E "^(FAIL|---)" test.log | head -5
